@@ -93,13 +93,19 @@ class Control:
         return getattr(self.tls, "task", None)
 
 
-def chunk_batches(n, poolsize):
-    """The batches ThreadPool(poolsize).map forms for n items (pool.py: _map_async/_get_tasks)."""
+def chunk_batches(n, poolsize, chunksize=None):
+    """The batches ThreadPool(poolsize).map(f, items, chunksize) forms for n items (CPython 3.12 pool.py:
+    _map_async/_get_tasks).  chunksize None = the default ceil(n / (4 * poolsize)); an explicit chunksize <= 0
+    makes the real pool run NO task at all and return [None] * n (MapResult: `if chunksize <= 0:
+    self._number_left = 0; self._event.set()`), which is reproduced here as "no batches"."""
     if n == 0:
         return []
-    chunksize, extra = divmod(n, poolsize * 4)
-    if extra:
-        chunksize += 1
+    if chunksize is None:
+        chunksize, extra = divmod(n, poolsize * 4)
+        if extra:
+            chunksize += 1
+    if chunksize <= 0:
+        return []
     return [list(range(i, min(i + chunksize, n))) for i in range(0, n, chunksize)]
 
 
@@ -120,12 +126,12 @@ def make_det_pool(ctl):
         def join(self):
             pass
 
-        def map(self, fn, iterable):
+        def map(self, fn, iterable, chunksize=None):
             if not self.running:
                 raise ValueError("Pool not running")
             items = list(iterable)
             n = len(items)
-            batches = chunk_batches(n, self.poolsize)
+            batches = chunk_batches(n, self.poolsize, chunksize)
             ctl.maps += 1
             ctl.batches = batches
             results = [None] * n
@@ -217,9 +223,11 @@ def make_order_pool(ctl, order=None, only=None):
         def close(self):
             pass
 
-        def map(self, fn, iterable):
+        def map(self, fn, iterable, chunksize=None):
             items = list(iterable)
             ctl.maps += 1
+            if chunksize is not None and chunksize <= 0:
+                return [None] * len(items)          # the real pool runs nothing for an explicit chunksize <= 0
             idx = [only] if only is not None else (list(order) if order is not None else list(range(len(items))))
             out = [None] * len(items)
             for i in idx:
@@ -243,7 +251,7 @@ def make_real_pool(ctl):
         def map(self, fn, iterable, chunksize=None):
             items = list(iterable)
             ctl.maps += 1
-            ctl.batches = chunk_batches(len(items), len(self._pool))
+            ctl.batches = chunk_batches(len(items), len(self._pool), chunksize)
 
             def run(pair):
                 i, item = pair
